@@ -152,6 +152,12 @@ def cases(tier):
         cs.append(C("i/getitem/[%s]" % ix, "out = x[%s]" % ix, [("x", (2, 3))],
                     setup="m = np.array([[True, False, True], [False, False, True]])\nidx = np.array([0, 0, 2])\n"
                           "mb = np.array([True, False])"))
+    for dt in ("int8", "int16", "int32", "uint8", "uint16", "intp"):
+        cs.append(C("i/getitem/idx-%s" % dt, "out = x[ix]", [("x", (3,))], setup="ix = np.array([2, 0, 0, 2], dtype=np.%s)" % dt))
+        cs.append(C("i/getitem/idx-%s/mixed" % dt, "out = x[ix, 1:]", [("x", (2, 3))], setup="ix = np.array([1, 1, 0], dtype=np.%s)" % dt))
+        cs.append(C("i/setitem/idx-%s" % dt, "z = +x\nz[ix] = y\nout = z", [("x", (3,)), ("y", (3,))], setup="ix = np.array([0, 0, 2], dtype=np.%s)" % dt))
+    cs.append(C("i/getitem/idx-2d-int32", "out = x[ix]", [("x", (3,))], setup="ix = np.array([[0, 1], [1, 1]], dtype=np.int32)"))
+    cs.append(C("i/getitem/idx-pair-mixed-dtypes", "out = x[ia, ib]", [("x", (2, 3))], setup="ia = np.array([0, 0, 1], dtype=np.int16)\nib = np.array([2, 2, 0], dtype=np.uint8)"))
     cs.append(C("i/getitem/1d/[idx]", "out = x[[2, 0, 0]]", [("x", (3,))]))
     cs.append(C("i/getitem/0d/[()]", "out = x[()]", [("x", ())]))
     cs.append(C("i/getitem/0d/[None]", "out = x[None]", [("x", ())]))
@@ -263,6 +269,23 @@ def cases(tier):
     for c in cs:
         if c.get("assume") == "import_lt = None":
             c["assume"] = None
+    # non-C-ordered operands (the data of the leaf is the transpose of a C-ordered array): every case with a >= 2-D leaf,
+    # for reductions, linear algebra, indexing, manipulation, layers (unary/binary ufuncs: thorough only, they have their own F cases)
+    extra = []
+    for c in cs:
+        if c["name"].endswith("F") or c["name"].endswith("F-layout"):
+            continue
+        if not any(len(l[1]) >= 2 for l in c["leaves"]):
+            continue
+        if c["name"].split("/")[0] in ("u", "b") and not T:
+            continue
+        if c.get("heavy"):
+            continue
+        d = dict(c)
+        d["name"] = c["name"] + "/F"
+        d["leaves"] = [[l[0], l[1], "F"] if len(l[1]) >= 2 else list(l) for l in c["leaves"]]
+        extra.append(d)
+    cs += extra
     cs.append({"name": "crosshair/einsum-label-helpers", "kind": "crosshair", "file": "crosshair_specs/einsum_helpers.py", "body": "crosshair check", "leaves": []})
     return cs
 
